@@ -4,7 +4,7 @@
 From Coq Require Import List ZArith QArith Qcanon Bool Arith.
 From Dimod Require Import Base.Util Model.Poly Model.View Model.Hist Model.ChkC04
   Proofs.PolyFacts Proofs.ViewFacts Proofs.HistFacts Proofs.HistWf Proofs.HistWf2 Proofs.HistAtomic
-  Proofs.HistContract Proofs.HistAtomicQM Proofs.HistQmAtomic Proofs.HistQmPres Proofs.HistLoops Proofs.HistBqmReach Proofs.HistViewStep Proofs.HistViewStep2 Gen.Gen_ViewWrites Proofs.HistGenTie2 Gen.Gen_QmLimits Gen.Gen_RelabelRules Proofs.HistGenTie Proofs.HistBackends.
+  Proofs.HistContract Proofs.HistAtomicQM Proofs.HistQmAtomic Proofs.HistQmPres Proofs.HistLoops Proofs.HistBqmReach Proofs.HistViewStep Proofs.HistViewStep2 Proofs.HistViewStep3 Proofs.HistContractView Gen.Gen_ViewWrites Proofs.HistGenTie2 Gen.Gen_QmLimits Gen.Gen_RelabelRules Proofs.HistGenTie Proofs.HistBackends.
 From Dimod Require Model.Adj Proofs.AdjFacts.
 Import ListNotations.
 Open Scope Qc_scope.
@@ -180,6 +180,15 @@ Theorem C04_view_step_set_linear :
     h_get_linear h v (fst (step s (h, OSetLinear v b))) = Some b.
 Proof. exact view_step_set_linear. Qed.
 Print Assumptions C04_view_step_set_linear.
+
+(* remove_variable through a translating handle: the result is the model with the VIEW's variable v set to 0
+   (base value zp d: -1 under a binary view of a spin model, 1/2 under a spin view of a binary model) *)
+Theorem C04_view_step_remove_variable :
+  forall h d v s y, B s -> wf s -> vdir_of h s = Some d -> has_var s v = true ->
+    snd (step s (h, ORemoveVariable (Some v))) = Ok /\
+    energy (st_poly (fst (step s (h, ORemoveVariable (Some v))))) y = energy (st_poly s) (upd y v (zp d)).
+Proof. exact view_step_remove_variable. Qed.
+Print Assumptions C04_view_step_remove_variable.
 
 Theorem C04_view_scale_roundtrip :
   forall h d s b, vdir_of h s = Some d -> vscale h s (kqm d b) = b /\ kqm d (vscale h s b) = b.
@@ -496,6 +505,32 @@ Theorem C04_contract_energy_same_vartype_handle :
     energy (st_poly (fst (step s (h, OContract u v)))) y = energy (st_poly s) (upd y v (y u)).
 Proof. exact contract_energy_same_vartype_handle. Qed.
 Print Assumptions C04_contract_energy_same_vartype_handle.
+
+(* ---------- contraction through a TRANSLATING view, and through every handle ---------- *)
+(* vdir_of h s = Some d: the handle's vartype differs from the base's; the code path is the view's own loop of translated
+   writes (get_linear through neighbourhood sums, set_quadratic / remove_interaction / remove_variable through the view).
+   The base energy of the result at y is the original's at y[v := y[u]], for y[u] obeying the BASE vartype's rule
+   (equivalently: the view's polynomial with the view's variables of u and v merged under the VIEW's rule). *)
+Theorem C04_contract_energy_translating_handle :
+  forall h d u v s y,
+    B s -> wf s -> vdir_of h s = Some d -> has_var s u = true -> has_var s v = true -> u <> v ->
+    (match d with BinOverSpin => hvt h s = BINARY | SpinOverBin => hvt h s <> BINARY end) ->
+    (match d with BinOverSpin => y u * y u = 1 | SpinOverBin => y u * y u = y u end) ->
+    snd (step s (h, OContract u v)) = Ok /\
+    energy (st_poly (fst (step s (h, OContract u v)))) y = energy (st_poly s) (upd y v (y u)).
+Proof. exact contract_energy_view. Qed.
+Print Assumptions C04_contract_energy_translating_handle.
+
+(* the base object and every .spin / .binary handle, translating or not *)
+Theorem C04_contract_energy_any_handle :
+  forall h u v s y,
+    (match h with Direct => True | Via wv => is_sb wv = true end) ->
+    B s -> wf s -> has_var s u = true -> has_var s v = true -> u <> v ->
+    (match bvt s with BINARY => y u * y u = y u | _ => y u * y u = 1 end) ->
+    snd (step s (h, OContract u v)) = Ok /\
+    energy (st_poly (fst (step s (h, OContract u v)))) y = energy (st_poly s) (upd y v (y u)).
+Proof. exact contract_energy_any_handle. Qed.
+Print Assumptions C04_contract_energy_any_handle.
 
 (* ---------- error conditions generated from the source ---------- *)
 Theorem C04_relabel_rule_from_source : forall m s, relabel_ok m s = negb (gen_relabel_raises m s).
